@@ -1164,6 +1164,176 @@ def loop_of_jump(par, n):
     return None
 
 
+def check_iteration_containers(ck, fn, fkey, rule="E7.per-iteration-container-reset"):
+    """Inter-mesh transfer assemblers: a container that lives across the iterations of the target-cell loop and whose ELEMENTS are filled per target cell
+    (C.at(x).push_back(...) inside the loop) and consumed in the same iteration must be empty again before the next target cell: the whole container is cleared /
+    re-created unconditionally in the loop body, or every element is cleared in a loop over all elements (the only paths that may skip the clear are guarded by
+    the emptiness of that element or of a copy of it), or the container is declared inside the loop.  Otherwise cubature points registered for an earlier target cell
+    are integrated again for the next one (resize() keeps the old elements)."""
+    rs = Resolver(fn)
+    par = dfl.parents(fn)
+    fills = {}
+    for n in dfl.own_nodes(fn):
+        if n.get("k") == "MCall" and callee_name(n) in ("push_back", "emplace_back", "insert", "emplace"):
+            st = rs.path(n.get("obj")).steps
+            if len(st) == 2 and st[0][0] == "local" and st[1][0] in ("call", "index") and (st[1][0] == "index" or st[1][1] in ("at", "operator[]", "back", "front")):
+                loops = dfl.enclosing_loops(fn, par, n)
+                if loops:
+                    fills.setdefault(st[0][1], []).append((n, loops[0]))
+    count = 0
+    for d, lst in sorted(fills.items()):
+        v = rs.var(d)
+        T = lst[0][1]
+        if v is None or any(t_ is not T for n_, t_ in lst):
+            continue
+        key = "%s/%s" % (fkey, v["n"])
+        count += 1
+        if any(x is T for x in dfl.enclosing_loops(fn, par, v)):
+            ck.ob(rule, key, True, "%s is declared inside the target-cell loop: a fresh container per iteration" % v["n"], fn.file, v.get("l"))
+            continue
+        C = Path((("local", d),), text=v["n"])
+
+        def elem_of(e):
+            """index text if e denotes an element C.at(i) / C[i] of the container (also through a copy / reference local initialised with it)"""
+            if e is None:
+                return None
+            st = rs.path(e).steps
+            if len(st) == 1 and st[0][0] == "local" and st[0][1] != d:
+                v2 = rs.var(st[0][1])
+                if v2 is not None and v2.get("init") is not None and st[0][1] not in dfl.assigned_decls(fn):
+                    ini = v2["init"]
+                    while ini is not None and ini.get("k") in ("Construct", "TempObj") and len(ini.get("a", [])) == 1:
+                        ini = ini["a"][0]
+                    st = rs.path(ini).steps
+            if len(st) == 2 and st[0] == ("local", d) and st[1][0] in ("call", "index"):
+                return str(st[1][2] if st[1][0] == "call" else st[1][1])
+            return None
+
+        def empty_test(cn, depth=0):
+            """the condition holds only if some element of C (or a copy of it) is empty:  E.empty()  /  E.size() == 0  (possibly as one operand of ||)"""
+            cn = norm._strip(rs.value(cn)) if cn is not None else None
+            if cn is None or depth > 4:
+                return False
+            if cn.get("k") == "MCall" and callee_name(cn) == "empty" and elem_of(cn.get("obj")) is not None:
+                return True
+            if cn.get("k") == "Bin" and cn.get("op") == "==":
+                for u, w in ((cn["lhs"], cn["rhs"]), (cn["rhs"], cn["lhs"])):
+                    uu, ww = norm._strip(rs.value(u)), norm._strip(rs.value(w))
+                    if uu is not None and uu.get("k") == "MCall" and callee_name(uu) == "size" and elem_of(uu.get("obj")) is not None and unwrap_num(rs, ww) == 0.0:
+                        return True
+            return False
+        whole, elems, opaque = [], [], []
+        range_ok = []
+        for Rf in dfl.own_nodes(fn):
+            # for(auto& e : C) e.clear();  — every element by construction
+            if Rf.get("k") == "ForRange" and any(x is T for x in dfl.enclosing_loops(fn, par, Rf)) and rs.path(Rf.get("range")) == C:
+                lv_ = (Rf.get("var") or {}).get("d")
+                cl_ = [m for m in dfl.own_walk(Rf.get("body")) if m.get("k") == "MCall" and callee_name(m) == "clear" and rs.path(m.get("obj")).steps == (("local", lv_),)]
+                if cl_ and (Rf.get("var") or {}).get("ref") and all(norm.once_per_iteration(fn, par, Rf, m) for m in cl_) and norm.once_per_iteration(fn, par, T, Rf):
+                    range_ok.append(Rf)
+                elif (Rf.get("var") or {}).get("ref") and not "const" in fn.type((Rf.get("var") or {}).get("t")):
+                    opaque.append(Rf)
+        for n in dfl.own_nodes(fn):
+            if not any(x is T for x in dfl.enclosing_loops(fn, par, n)) or not is_call(n):
+                continue
+            nm = callee_name(n)
+            recv = dfl.receiver(n)
+            rp = rs.path(recv) if recv is not None else None
+            if n.get("k") == "MCall" and rp == C and nm in ("clear",):
+                whole.append(n)
+            elif n.get("k") in ("OpCall", "MCall") and rp == C and (n.get("op") == "=" or nm in ("assign", "swap")) and not n.get("cconst"):
+                whole.append(n)
+            elif n.get("k") == "MCall" and rp is not None and len(rp.steps) == 2 and rp.steps[0] == ("local", d) and nm == "clear":
+                elems.append(n)
+            elif n.get("k") in ("OpCall", "MCall") and rp is not None and len(rp.steps) == 2 and rp.steps[0] == ("local", d) and (n.get("op") == "=" or nm in ("assign",)):
+                elems.append(n)
+            elif nm == "swap" and any(len(rs.path(a_).steps) == 2 and rs.path(a_).steps[0] == ("local", d) for a_ in ([recv] if recv is not None else []) + list(n.get("a", []))):
+                # std::vector<T>().swap(C.at(i)) / C.at(i).swap(tmp): the element takes the other vector's contents — empty only for a fresh temporary
+                other_ = [a_ for a_ in ([recv] if recv is not None else []) + list(n.get("a", [])) if not (len(rs.path(a_).steps) == 2 and rs.path(a_).steps[0] == ("local", d))]
+                if other_ and other_[0].get("k") in ("Construct", "TempObj") and not other_[0].get("a"):
+                    elems.append(n)
+                else:
+                    opaque.append(n)
+            else:
+                for a_, pn_, pt_ in dfl.call_args_with_params(n, fn):
+                    if a_ is not recv and pt_ is not None and is_nonconst_ref(pt_) and rs.path(a_).related(C):
+                        opaque.append(n)
+                if dfl.lambda_body_of(rs, n) is not None and any(p_.related(C) for p_ in dfl.lambda_touched_paths(rs, fn, dfl.lambda_body_of(rs, n))):
+                    opaque.append(n)
+                if recv is not None and rp is not None and rp.related(C) and not n.get("cconst") and n.get("k") == "MCall" \
+                        and nm not in ("push_back", "emplace_back", "insert", "emplace", "at", "operator[]", "resize", "reserve", "back", "front", "begin", "end", "clear"):
+                    opaque.append(n)
+        if range_ok:
+            ck.ob(rule, key, True, "every element of %s is cleared by a range-for over the container in every target-cell iteration" % v["n"], fn.file, range_ok[0].get("l"))
+            continue
+        if any(norm.once_per_iteration(fn, par, T, w) for w in whole):
+            ck.ob(rule, key, True, "%s is cleared / re-assigned as a whole in every iteration of the target-cell loop" % v["n"], fn.file, whole[0].get("l"))
+            continue
+        verdicts = []
+        for r in elems:
+            loops = dfl.enclosing_loops(fn, par, r)
+            R = loops[-1] if loops and loops[-1] is not T else None
+            if R is None:
+                verdicts.append(("unknown", "the element clear at line %s is not inside a loop over the elements" % r.get("l")))
+                continue
+            lr = norm.loop_range(fn, R, par)
+            bnd = norm._strip(rs.value(lr["bound"])) if lr is not None else None
+            full = lr is not None and lr["sign"] > 0 and lr["cmp"] in ("<", "!=") and unwrap_num(rs, lr["start"]) == 0.0 and bnd is not None and bnd.get("k") == "MCall" and callee_name(bnd) == "size"
+            if full:
+                bp = rs.path(bnd.get("obj"))
+                if bp != C:
+                    # a sibling container of the same length: C.resize(X.size()) in this iteration
+                    rsz = [m for m in dfl.own_nodes(fn) if m.get("k") == "MCall" and callee_name(m) == "resize" and rs.path(m.get("obj")) == C and m.get("a")
+                           and (norm._strip(rs.value(m["a"][0])) or {}).get("k") == "MCall" and callee_name(norm._strip(rs.value(m["a"][0]))) == "size"
+                           and rs.path(norm._strip(rs.value(m["a"][0])).get("obj")) == bp and norm.once_per_iteration(fn, par, T, m)]
+                    full = bool(rsz)
+            cand_ = ([dfl.receiver(r)] if dfl.receiver(r) is not None else []) + list(r.get("a", []))
+            ixt = next((elem_of(x_) for x_ in cand_ if x_ is not None and len(rs.path(x_).steps) == 2 and rs.path(x_).steps[0] == ("local", d)), None)
+            ivn = (rs.var(lr["var"]) or {}).get("n") if lr is not None else None
+            if not full or ixt is None or ixt != ivn:
+                verdicts.append(("unknown", "the loop at line %s around the element clear does not recognisably visit every element of %s" % (R.get("l"), v["n"])))
+                continue
+            # every path through one iteration of R reaches the clear, except paths that are guarded by the emptiness of the element
+            skips = []
+            for node, slot in dfl.enclosing_stmt_chain(par, r):
+                if node is R:
+                    break
+                if node.get("k") in ("If", "Cond") and slot in ("then", "else"):
+                    neg = slot == "else"
+                    cn = norm._strip(node["c"])
+                    inner_neg = False
+                    while cn is not None and cn.get("k") == "Un" and cn.get("op") == "!":
+                        cn, inner_neg = norm._strip(cn["e"]), not inner_neg
+                    if not (empty_test(cn) and (neg != inner_neg)):       # cleared only if NOT empty: fine; anything else: conditional clear
+                        skips.append("the clear at line %s is conditional (%s)" % (r.get("l"), render(node["c"])[:40]))
+                elif node.get("k") in ("For", "While", "Do", "ForRange", "Switch"):
+                    skips.append("the clear at line %s is nested in %s" % (r.get("l"), render(node)[:30]))
+            wr = fn.cfg.block_of(r["i"]) if "i" in r else None
+            for j in dfl.own_walk(R.get("body")):
+                if j.get("k") in ("Continue", "Break", "Return") and (j.get("k") == "Return" or loop_of_jump(par, j) is R):
+                    # a jump that may bypass the clear: harmless only if taken for an empty element
+                    after = "i" in j and wr is not None and fn.cfg.block_of(j["i"]) is not None and fn.cfg.stmt_dominates(r["i"], j["i"])
+                    if after:
+                        continue
+                    conds = [cn for cn, br in enclosing_conds_c18(par, j) if br == "then"]
+                    if j.get("k") == "Continue" and any(empty_test(cn) for cn in conds):
+                        continue
+                    skips.append("'%s' at line %s leaves the iteration before the clear at line %s" % (j["k"].lower(), j.get("l"), r.get("l")))
+            verdicts.append(("ok", None) if not skips else ("cond", "; ".join(skips)))
+        if any(vd[0] == "ok" for vd in verdicts):
+            ck.ob(rule, key, True, "every element of %s is cleared in a loop over all elements in every target-cell iteration (paths that skip it are guarded by the element being empty)" % v["n"],
+                  fn.file, elems[0].get("l"))
+        elif opaque or any(vd[0] == "unknown" for vd in verdicts):
+            why = [vd[1] for vd in verdicts if vd[1]] + ["%s is handed to / modified by %s, which is not modelled" % (v["n"], render(o_)[:40]) for o_ in opaque[:1]]
+            ck.incomplete(rule, "%s: %s" % (key, "; ".join(why)[:300]))
+        else:
+            ck.ob(rule, key, False, ("the elements of %s are filled per target cell (line %s) and consumed in the same iteration, but %s: resize() keeps the old elements, so entries registered for "
+                                     "an earlier target cell are processed again for later ones" % (
+                                         v["n"], lst[0][0].get("l"), ("; ".join(vd[1] for vd in verdicts if vd[1])) if verdicts else "they are never cleared inside the target-cell loop")),
+                  fn.file, lst[0][0].get("l"))
+    return count
+
+
 def check_candidate_weights(ck, fn, fkey, rule="E3.candidates-all-registered"):
     """consumer:  weight = 1 / C.size()  with C = candidates.at(point)   (averaging over all candidate cells of a point)
     producer:  for(i = 0; i < C'.size(); ++i) { ... register (i, point) ... }  with C' an element of the same container.
@@ -2586,6 +2756,10 @@ def declare_rules(ck):
             "M^-1*N is wrong for every non-commuting pair, i.e. every element with more than one local dof", 13)
     ck.rule("E7.weight-per-projection", "the weight vector receives exactly one scatter of an all-ones local vector per inverted local mass matrix (same innermost loop), so that "
             "weight(dof) = number of local projections added to the row of that dof", 13)
+    ck.rule("E7.per-iteration-container-reset", "GridTransfer::assemble_intermesh_transfer / transfer_intermesh_vector: a container that outlives the target-cell loop and whose elements "
+            "are filled per target cell (push_back into C.at(k)) and consumed in the same iteration is empty again before the next iteration: cleared / re-created as a whole, or every "
+            "element cleared in a loop over all elements (only paths guarded by the element's emptiness may skip it), or declared inside the loop. Broken (no clear in one of the "
+            "twins) => cubature points of earlier target cells are integrated again: wrong for every mesh with more than one target cell per thread", 4)
     ck.rule("E7.prepare-order", "GridTransfer assemblers: every space_eval.prepare(trafo_eval) is dominated, within the same loop iteration, by trafo_eval.prepare(cell) — the space "
             "evaluator is set up from the trafo evaluator of the CURRENT cell (the documented evaluator protocol prepare(cell) -> prepare(trafo_eval) -> ... -> finish). Broken (order "
             "swapped) => evaluators whose prepare() reads cell data (non-parametric discontinuous P1 on quads / hexas) use the previous cell", 26)
@@ -2681,6 +2855,9 @@ def analyse(ck, facts, once, grid=True):
                     trial = trial2
         trial.commit()
         if strip_targs(fn.qn).startswith("FEAT::Assembly::GridTransfer::") and "intermesh" in (fn.name or ""):
+            ikey = fn_key(fn) + ":" + ",".join(sorted({re.sub(r".*(Hypercube|Simplex)<(\d)>.*", r"\1\2", fn.type(p_["t"])) for p_ in fn.params if "Space::" in fn.type(p_["t"])}))
+            fi = norm.inline_helpers(fn, inline_select(fn))
+            check_iteration_containers(once, fi, ikey)
             check_candidate_weights(once, fn, fn_key(fn) + ":" + ",".join(sorted({re.sub(r".*(Hypercube|Simplex)<(\d)>.*", r"\1\2", fn.type(p_["t"])) for p_ in fn.params if "Space::" in fn.type(p_["t"])})))
         if grid and strip_targs(fn.qn).startswith("FEAT::Assembly::GridTransfer::") and fn.name in PRODUCERS and reaches_calc_fcell(fn):
             # statement-level helpers of the assembler (an extracted block of prepare / scatter calls) are inlined; value-returning index helpers are
